@@ -1,3 +1,144 @@
+import BU.Py
+import BU.Gen.Tables
 import BU.Model.Address
+import BU.Model.Bech32
+import BU.Proofs.Bech32Lemmas
+import BU.Proofs.SegwitLemmas
+/-!
+# C11 — segwit addresses (bech32/bech32m) round-trip and are validated, per network
+
+M: `Model.Bech32.*` (bech32.py), `Model.segwitToString`, `segwitFromString`, `segwitInit`, `isAddressBech32`.
+-/
 namespace C11
+open Py Spec Model Model.Bech32 SegwitLemmas
+
+/-- **T-tie**: charset, generator and bech32m constant of the working tree are BIP173 / BIP350's -/
+theorem consts_tie :
+    ({ charset := Gen.BECH32_CHARSET.toList, generator := Gen.BECH32_GENERATOR, m := Gen.BECH32M_CONST } : Consts) = specConsts := by
+  rfl
+
+/-- **T-tie**: the human-readable parts per network -/
+theorem segwit_prefixes :
+    Gen.NETWORK_SEGWIT_PREFIXES = [("mainnet", "bc"), ("signet", "tb"), ("testnet", "tb"), ("regtest", "bcrt")] := by
+  rfl
+
+def validProgram (ver : Nat) (prog : Bytes) : Prop :=
+  (ver = 0 ∧ (prog.length = 20 ∨ prog.length = 32)) ∨ (ver = 1 ∧ prog.length = 32)
+
+/-- helper: the network prefixes as character lists -/
+theorem hrp_cases (hrp : String) (hh : hrp ∈ Gen.NETWORK_SEGWIT_PREFIXES.map (·.2)) :
+    hrp.toList = "bc".toList ∨ hrp.toList = "tb".toList ∨ hrp.toList = "bcrt".toList := by
+  rw [segwit_prefixes] at hh
+  simp only [List.map_cons, List.map_nil, List.mem_cons, List.not_mem_nil, or_false] at hh
+  rcases hh with rfl | rfl | rfl | rfl
+  · exact Or.inl rfl
+  · exact Or.inr (Or.inl rfl)
+  · exact Or.inr (Or.inl rfl)
+  · exact Or.inr (Or.inr rfl)
+
+/-- helper: `Bech32Lemmas.decode_encode` instantiated at the byte list of a valid program -/
+theorem core (hrp : String) (hh : hrp ∈ Gen.NETWORK_SEGWIT_PREFIXES.map (·.2)) (ver : Nat) (prog : Bytes)
+    (hv : validProgram ver prog) :
+    ∃ l, encode specConsts hrp.toList ver (prog.map (·.toNat)) = some l ∧
+      decode specConsts hrp.toList l = some (ver, prog.map (·.toNat)) := by
+  apply Bech32Lemmas.decode_encode _ (hrp_cases hrp hh)
+  · intro b hb
+    rw [List.mem_map] at hb
+    obtain ⟨x, _, rfl⟩ := hb
+    exact UInt8.toNat_lt x
+  · simpa [validProgram] using hv
+
+/-- for every witness program (v0/20, v0/32, v1/32) and every network prefix: the address string decodes back to
+exactly that program under the same version -/
+theorem roundtrip (hrp : String) (hh : hrp ∈ Gen.NETWORK_SEGWIT_PREFIXES.map (·.2)) (ver : Nat) (prog : Bytes)
+    (hv : validProgram ver prog) :
+    ∃ s, segwitToString specConsts hrp ver prog = some s ∧ segwitFromString specConsts hrp ver s = .ok prog := by
+  obtain ⟨l, he, hd⟩ := core hrp hh ver prog hv
+  refine ⟨String.ofList l, ?_, ?_⟩
+  · unfold segwitToString
+    rw [he]; rfl
+  · unfold segwitFromString
+    rw [String.toList_ofList, hd]
+    simp only [ne_eq, not_true_eq_false, if_false, map_ofNat_toNat]
+
+/-- P2WPKH / P2WSH / P2TR objects re-created from their own address string or from their witness program hold an
+identical program -/
+theorem recreate (sha256 : Bytes → Bytes) (T : Tables) (hrp : String) (hh : hrp ∈ Gen.NETWORK_SEGWIT_PREFIXES.map (·.2))
+    (ver : Nat) (prog : Bytes) (hv : validProgram ver prog) :
+    segwitInit sha256 specConsts T hrp ver (some prog) none none = .ok prog ∧
+    ∃ s, segwitToString specConsts hrp ver prog = some s ∧
+      segwitInit sha256 specConsts T hrp ver none (some s) none = .ok prog := by
+  constructor
+  · have hne : prog.isEmpty = false := by
+      cases prog with
+      | nil => rcases hv with ⟨_, h | h⟩ | ⟨_, h⟩ <;> simp at h
+      | cons a t => rfl
+    simp only [segwitInit, hne, Bool.false_eq_true, if_false]
+  · obtain ⟨l, he, hd⟩ := core hrp hh ver prog hv
+    obtain ⟨s, hs, hf⟩ := roundtrip hrp hh ver prog hv
+    refine ⟨s, hs, ?_⟩
+    have hsl : s = String.ofList l := by
+      unfold segwitToString at hs
+      rw [he] at hs
+      simpa using hs.symm
+    have hne : s.isEmpty = false := by
+      apply isEmpty_false_of_decode specConsts hrp.toList s (ver, prog.map (·.toNat))
+      rw [hsl, String.toList_ofList]; exact hd
+    simp only [segwitInit, hne, Bool.false_eq_true, if_false, hf]
+
+/-- whatever string an address object accepts has the network's prefix, a single case, only charset characters in
+its data part, the object's witness version and the checksum variant of that version (bech32 for v0, bech32m for
+v1) — anything else is rejected -/
+theorem accept_sound (hrp : String) (ver : Nat) (s : String) (prog : Bytes)
+    (h : segwitFromString specConsts hrp ver s = .ok prog) :
+    ∃ data spec, bech32Decode specConsts s.toList = some (hrp.toList, data, spec) ∧ data.head? = some ver ∧
+      (ver = 0 → spec = .bech32) ∧ (ver ≠ 0 → spec = .bech32m) ∧
+      ¬ (s.toList.map lowerC ≠ s.toList ∧ s.toList.map upperC ≠ s.toList) ∧
+      2 ≤ prog.length ∧ prog.length ≤ 40 := by
+  unfold segwitFromString at h
+  split at h
+  · cases h
+  · rename_i v p hd
+    split at h
+    · cases h
+    · rename_i hv
+      have hv' : v = ver := Decidable.byContradiction hv
+      subst hv'
+      have hp : prog = p.map UInt8.ofNat := by
+        injection h with h; exact h.symm
+      obtain ⟨hrpgot, data, spec, hbd, rfl, hhd, _, h0, h1, hl2, hl40, _, hcase⟩ :=
+        Bech32Lemmas.decode_sound _ _ _ _ hd
+      refine ⟨data, spec, hbd, hhd, h0, h1, hcase, ?_, ?_⟩
+      · rw [hp, List.length_map]; exact hl2
+      · rw [hp, List.length_map]; exact hl40
+
+/-- the predicate helper answers yes for every valid segwit address … -/
+theorem predicate_valid (hrp : String) (hh : hrp ∈ Gen.NETWORK_SEGWIT_PREFIXES.map (·.2)) (ver : Nat) (prog : Bytes)
+    (hv : validProgram ver prog) (s : String) (hs : segwitToString specConsts hrp ver prog = some s) :
+    isAddressBech32 specConsts s = true := by
+  obtain ⟨l, he, hd⟩ := core hrp hh ver prog hv
+  have hsl : s = String.ofList l := by
+    unfold segwitToString at hs
+    rw [he] at hs
+    simpa using hs.symm
+  have hd' : decode specConsts hrp.toList s.toList = some (ver, prog.map (·.toNat)) := by
+    rw [hsl, String.toList_ofList]; exact hd
+  unfold isAddressBech32
+  rw [isEmpty_false_of_decode _ _ _ _ hd']
+  simp only [Bool.false_eq_true, if_false]
+  exact isSome_of_decode _ _ _ _ hd'
+
+/-- … and no for mixed-case strings (as Base58 addresses almost always are) and for strings without a valid
+bech32/bech32m checksum -/
+theorem predicate_rejects (s : String)
+    (h : (s.toList.map lowerC ≠ s.toList ∧ s.toList.map upperC ≠ s.toList) ∨ bech32Decode specConsts s.toList = none) :
+    isAddressBech32 specConsts s = false := by
+  unfold isAddressBech32
+  split
+  · rfl
+  · rcases h with h | h
+    · unfold bech32Decode
+      rw [if_pos (Or.inr h)]; rfl
+    · rw [h]; rfl
+
 end C11
